@@ -6,7 +6,7 @@ import Bermuda.Model.Basis
 import Bermuda.Spec.C04
 import Bermuda.Lemmas.BasisRows
 namespace Bermuda.Properties.C04
-open Bermuda
+open Bermuda Std
 
 /-! ### 1. identity on the target basis -/
 
@@ -210,6 +210,176 @@ theorem toInc_toCum {u : List Cell} (h : Complete u) :
       have := hCperm.mem_iff.mp hcC
       rw [List.map_id] at this
       exact hc.isInc c this
+
+
+
+/-! ### 4. refusals -/
+
+/-- **refusal of broken chains**: a consistent incremental triangle in which some row is not a
+complete chain (first previous date ≠ day before period start, or a link ≠ the previous evaluation
+date — e.g. after removing or shifting one cell) is refused with `TriangleError`. -/
+theorem toCum_error_of_broken_chain {u : List Cell} (hc : Consistent u)
+    (hpv : ∀ c ∈ u, ∀ p, c.prev = some p → p.valid = true) (hb : ∃ k, ¬ RowChain u k) :
+    Triangle.toCumulative u = .error .triangleError := by
+  obtain ⟨kb, hkb⟩ := hb
+  have G := groupBy_inv rowKey u
+  have hrows := orderedRows_of_strict hc.sorted
+  have hne : u ≠ [] := by
+    intro e; apply hkb; rw [e]; unfold RowChain; simp
+  have hinc := isIncremental_of_all hc.isInc hne
+  -- every row either converts or is refused with TriangleError
+  have hall : ∀ p ∈ orderedRows u, (∃ b, cumRow p.1 p.2 = .ok b) ∨
+      cumRow p.1 p.2 = .error .triangleError := by
+    intro p hp
+    rw [hrows] at hp
+    have hcont := G.content p hp
+    have R := hc.row hcont
+    cases hr : p.2 with
+    | nil => exact Or.inl ⟨[], by simp [cumRow]⟩
+    | cons x0 rest =>
+      rw [hr] at R hcont
+      have hx0 : x0 ∈ u := by
+        have : x0 ∈ u.filter (fun c => rowKey c == p.1) := by rw [← hcont]; simp
+        exact (List.mem_filter.mp this).1
+      have hv : p.1.1.1.valid = true := by
+        have := hc.psValid x0 hx0
+        rw [← R.key x0 (by simp)]; exact this
+      by_cases hch : x0.prev = some p.1.1.1.pred ∧ ChainFrom x0.ev rest
+      · obtain ⟨cs, h1, _⟩ := cumRow_incRow R hv hch.1 hch.2
+        exact Or.inl ⟨cs, h1⟩
+      · exact Or.inr (cumRow_error_of_broken R hv (hpv x0 hx0) hch)
+  have hex : ∃ p ∈ orderedRows u, cumRow p.1 p.2 = .error .triangleError := by
+    unfold RowChain at hkb
+    cases hf : u.filter (fun c => rowKey c == kb) with
+    | nil => rw [hf] at hkb; exact absurd trivial hkb
+    | cons x0 rest =>
+      rw [hf] at hkb
+      have hx : x0 ∈ u.filter (fun c => rowKey c == kb) := by rw [hf]; simp
+      obtain ⟨hx0, hxk⟩ := List.mem_filter.mp hx
+      have hxk : rowKey x0 = kb := by simpa using hxk
+      obtain ⟨p, hp, hpk⟩ := G.covers x0 hx0
+      have hpk : p.1 = kb := hpk.trans hxk
+      have hcont := G.content p hp
+      rw [hpk, hf] at hcont
+      have R := hc.row (k := kb) (r := x0 :: rest) hf.symm
+      have hv : kb.1.1.valid = true := by
+        have := hc.psValid x0 hx0
+        rw [← hxk]; exact this
+      refine ⟨p, by rw [hrows]; exact hp, ?_⟩
+      rw [hcont, hpk]
+      exact cumRow_error_of_broken R hv (hpv x0 hx0) hkb
+  have := mapM_error_of_all (f := fun p : RowKey × List Cell => cumRow p.1 p.2) _ hall hex
+  simp only [Triangle.toCumulative, hinc, Bool.not_true, Bool.false_eq_true, if_false, overRows, this,
+    Except.map, Except.bind]
+
+
+/-! ### 6. non-vacuity -/
+
+def mA : Metadata := { country := some "DE" }
+def mB : Metadata := { country := some "US" }
+def d (y m dd : Nat) : Date := ⟨y, m, dd⟩
+def arrI (l : List Int) : Val := .arr true [l.length] (l.map (fun (i : Int) => ((i : Int) : Rat)))
+def arrF (l : List Rat) : Val := .arr false [l.length] l
+def mkC (md : Metadata) (y : Nat) (ev : Date) (paid : List Int) (rep : List Rat) (ep : Rat) : Cell :=
+  { kind := .cumulative, ps := d y 1 1, pe := d y 12 31, ev := ev, md := md,
+    values := [("paid_loss", arrI paid), ("earned_premium", .flt ep), ("reported_loss", arrF rep)] }
+
+def exT : List Cell :=
+  [ mkC mA 2020 (d 2020 12 31) [10, 20] [15, 25.5] 100,
+    mkC mA 2020 (d 2022 12 31) [30, 25] [35, 30.25] 100,
+    mkC mB 2020 (d 2020 12 31) [1, 2] [1.5, 2] 50,
+    mkC mB 2020 (d 2021 12 31) [4, 2] [4.5, 2.5] 50,
+    mkC mB 2020 (d 2022 12 31) [9, 3] [9, 3.5] 55,
+    mkC mB 2021 (d 2021 12 31) [7, 7] [8, 8] 60 ]
+
+
+/-- decidable form of `DictCompat` -/
+def dictCompatB (a b : Dict Val) : Bool :=
+  b.all fun kv => kv.1 == staticField ||
+    ((a.getD' kv.1).ty?.isSome && (a.getD' kv.1).ty? == kv.2.ty?)
+
+theorem dictCompat_of_B {a b : Dict Val} (h : dictCompatB a b = true) : DictCompat a b := by
+  intro kv hkv hns
+  have := List.all_eq_true.mp h kv hkv
+  simp only [Bool.or_eq_true, beq_iff_eq, Bool.and_eq_true] at this
+  rcases this with e | ⟨h1, h2⟩
+  · exact absurd e hns
+  · obtain ⟨τ, hτ⟩ := Option.isSome_iff_exists.mp h1
+    exact ⟨τ, hτ, by rw [← h2, hτ]⟩
+
+/-- non-vacuity: a ragged two-slice triangle (slice DE skips the 2021 evaluation, slice US has a
+second, shorter period) with int64-array, float64-array and float (`earned_premium`, varying in one
+row) values satisfies `WFcum` -/
+theorem exT_wf : WFcum exT where
+  sorted := by decide +kernel
+  notInc := by decide +kernel
+  dates := by decide +kernel
+  psValid := by decide +kernel
+  keys := by decide +kernel
+  types := by
+    have : ∀ a ∈ exT, ∀ b ∈ exT, rowKey a = rowKey b → dictCompatB a.values b.values = true := by
+      decide +kernel
+    exact fun a ha b hb e => dictCompat_of_B (this a ha b hb e)
+
+/-- hence the round trip theorem applies to it -/
+example : ∃ u, Triangle.toIncremental exT = .ok u ∧
+    Triangle.toCumulative u = .ok (Spec.asCumulative exT) := toCum_toInc exT_wf
+
+
+
+def chainFromB : Date → List Cell → Bool
+  | _, [] => true
+  | d, c :: rest => c.prev == some d && chainFromB c.ev rest
+
+theorem chainFrom_of_B : ∀ {d : Date} {l : List Cell}, chainFromB d l = true → ChainFrom d l
+  | _, [], _ => trivial
+  | d, c :: rest, h => by
+    simp only [chainFromB, Bool.and_eq_true, beq_iff_eq] at h
+    exact ⟨h.1, chainFrom_of_B h.2⟩
+
+def rowChainB (u : List Cell) (k : RowKey) : Bool :=
+  match u.filter (fun c => rowKey c == k) with
+  | [] => true
+  | x0 :: rest => x0.prev == some k.1.1.pred && chainFromB x0.ev rest
+
+theorem rowChain_of_B {u : List Cell} (h : ∀ c ∈ u, rowChainB u (rowKey c) = true) (k : RowKey) :
+    RowChain u k := by
+  unfold RowChain
+  cases hf : u.filter (fun c => rowKey c == k) with
+  | nil => trivial
+  | cons x0 rest =>
+    have hx : x0 ∈ u.filter (fun c => rowKey c == k) := by rw [hf]; simp
+    obtain ⟨hxu, hxk⟩ := List.mem_filter.mp hx
+    have hxk : rowKey x0 = k := by simpa using hxk
+    have := h x0 hxu
+    rw [hxk] at this
+    unfold rowChainB at this
+    rw [hf] at this
+    simp only [Bool.and_eq_true, beq_iff_eq] at this
+    exact ⟨this.1, chainFrom_of_B this.2⟩
+
+def mkI (md : Metadata) (y : Nat) (prev ev : Date) (paid : List Int) (ep : Rat) : Cell :=
+  { kind := .incremental, ps := d y 1 1, pe := d y 12 31, prev := some prev, ev := ev, md := md,
+    values := [("earned_premium", .flt ep), ("paid_loss", arrI paid)] }
+
+/-- a complete incremental triangle: slice DE with a two-year first step, slice US with two periods -/
+def exU : List Cell :=
+  [ mkI mA 2020 (d 2019 12 31) (d 2020 12 31) [10, 20] 100,
+    mkI mA 2020 (d 2020 12 31) (d 2022 12 31) [20, 5] 100,
+    mkI mB 2020 (d 2019 12 31) (d 2020 12 31) [1, 2] 50,
+    mkI mB 2020 (d 2020 12 31) (d 2021 12 31) [3, 0] 50,
+    mkI mB 2020 (d 2021 12 31) (d 2022 12 31) [5, 1] 55,
+    mkI mB 2021 (d 2020 12 31) (d 2021 12 31) [7, 7] 60 ]
+
+theorem exU_complete : Complete exU := by
+  refine ⟨⟨by decide +kernel, by decide +kernel, by decide +kernel, by decide +kernel,
+    by decide +kernel, ?_⟩, rowChain_of_B (by decide +kernel)⟩
+  have : ∀ a ∈ exU, ∀ b ∈ exU, rowKey a = rowKey b → dictCompatB a.values b.values = true := by
+    decide +kernel
+  exact fun a ha b hb e => dictCompat_of_B (this a ha b hb e)
+
+example : ∃ t, Triangle.toCumulative exU = .ok t ∧ Triangle.toIncremental t = .ok exU :=
+  toInc_toCum exU_complete
 
 
 end Bermuda.Properties.C04
